@@ -170,9 +170,9 @@ def body(chk: check.Check):
     recs = []
     for panel in (False, True):
         for est in (True, False):
-            plans = [(1, (3,) if quick else (1,)), (2, (16, 24) if quick else (2, 3))]
+            plans = [(1, (3,) if quick else (1,)), (2, (16, 24) if quick else (6, 9))]
             if not quick:
-                plans.append((3, (6, 8, 10)))
+                plans.append((3, (12, 16, 20)))
             for max_ops, thin in plans:
                 res = tlc.run('AuditGen', audit.cfg(panel, max_ops, salt, est), extra_modules={'AuditGen': audit.module(panel, thin)},
                               workers='auto', timeout=2400)
